@@ -3,7 +3,13 @@
 //! case:  (c <lit>*)* (d <lit> | p)*        lit = signed 1-based label, as in DIMACS
 //! out:   NONE | <state> (<res> <state>)*   res = SAT | UNSAT | UNK | PANIC | POP
 //! state = [<T|F|- per variable>;<difference_iter sorted>;<is_sat 0|1>;<cur_hash decimal>]
-//! Oracle (independent of the solver and of the model): brute force over all total assignments.
+//! Oracle (independent of the solver and of the model): brute force over all total assignments
+//! (<= 16 variables) and, for every size, the unique unit-propagation closure of CNF + decisions
+//! computed by a naive reference propagator (occurrence lists, whole-clause evaluation, no watches),
+//! with a small DPLL search for counter-models when solver and closure differ.
+//! LARGE family (272-480 variables: implication chains / trees deeper than 256): case prefix `u` =
+//! only the unit-propagation layer of the model is run by the driver (states print as [model;diff],
+//! SAT/UNK both print as OK); without prefix the full solver model is compared as for small cases.
 use rsdd::repr::{Cnf, DecisionResult, Literal, SATSolver, VarLabel};
 use rsdd_verif_harness::*;
 use std::cell::RefCell;
@@ -267,7 +273,273 @@ fn all_histories(raw: &[Vec<L>]) -> Vec<String> {
     out
 }
 
+
+// ---------------------------------------------------------------- LARGE family
+/// Implication chains / trees over 272..480 variables (node i <-> literal (lab[i], pol[i])), so that
+/// one decision propagates through more than 256 nested implications; conflicts at the head, in
+/// the middle or far down the chain; guarded links; joined chains; skip edges; clause and literal
+/// order randomised.  Returns the clauses, a list of literals worth deciding, a prelude (decisions
+/// that arm the long chain: guard / first short chain) and the literal at the head of the long chain.
+fn gen_large_cnf(rng: &mut Rng, thorough: bool) -> (Vec<Vec<L>>, Vec<L>, Vec<L>, L) {
+    let shape = rng.below(5);
+    let hi = if thorough { 480 } else { 400 };
+    let nv = if shape == 4 { rng.range(345, hi) } else { rng.range(272, hi) };
+    let plain = rng.chance(1, 3);
+    let lab: Vec<usize> = if plain { (0..nv).collect() } else { rng.perm(nv) };
+    let pol: Vec<bool> = (0..nv).map(|_| plain || rng.chance(2, 3)).collect();
+    let lit = |i: usize, b: bool| -> L { (lab[i], pol[i] == b) };
+    let reserve = 6; // nodes nv-6.. : conflict variables and guards
+    let avail = nv - reserve;
+    let mut fresh = avail;
+    let mut chain_cls: Vec<Vec<L>> = vec![];
+    let mut conf_cls: Vec<Vec<L>> = vec![];
+    let mut interesting: Vec<L> = vec![];
+    let mut prelude: Vec<L> = vec![];
+    let mut head: Option<L> = None;
+    let imp = |rng: &mut Rng, a: L, b: L| -> Vec<L> {
+        let na = (a.0, !a.1);
+        if rng.coin() { vec![na, b] } else { vec![b, na] }
+    };
+    // the main chain (node indices), always longer than 257
+    let main: Vec<usize>;
+    match shape {
+        0 | 3 => {
+            let k = if rng.chance(1, 4) { rng.range(258, 262) } else { rng.range(258, avail) };
+            main = (0..k).collect();
+            let guards: Vec<usize> = if shape == 3 { (0..rng.range(1, 2)).map(|_| rng.range(1, k - 2)).collect() } else { vec![] };
+            let g = fresh;
+            if shape == 3 {
+                fresh += 1;
+                interesting.push(lit(g, true));
+                prelude.push(lit(g, true));
+            }
+            for i in 0..k - 1 {
+                let mut c = imp(rng, lit(i, true), lit(i + 1, true));
+                if guards.contains(&i) {
+                    let pos = rng.range(0, 2);
+                    c.insert(pos, lit(g, false));
+                    interesting.push(lit(i + 1, true));
+                }
+                chain_cls.push(c);
+            }
+        }
+        1 => {
+            // 2-3 chains from a shared head
+            let k = rng.range(258, avail - 8);
+            main = (0..k).collect();
+            for i in 0..k - 1 {
+                chain_cls.push(imp(rng, lit(i, true), lit(i + 1, true)));
+            }
+            let mut next = k;
+            for _ in 0..rng.range(1, 2) {
+                if next + 2 >= avail {
+                    break;
+                }
+                let len = rng.range(2, avail - next);
+                let mut prev = 0usize;
+                for j in next..next + len {
+                    chain_cls.push(imp(rng, lit(prev, true), lit(j, true)));
+                    prev = j;
+                }
+                next += len;
+            }
+        }
+        2 => {
+            // caterpillar: spine + leaves hanging off random spine nodes
+            let k = rng.range(258, avail - 4);
+            main = (0..k).collect();
+            for i in 0..k - 1 {
+                chain_cls.push(imp(rng, lit(i, true), lit(i + 1, true)));
+            }
+            for j in k..avail {
+                let at = rng.range(0, k - 1);
+                let pos = rng.range(0, chain_cls.len());
+                let c = imp(rng, lit(at, true), lit(j, true));
+                chain_cls.insert(pos, c);
+            }
+        }
+        _ => {
+            // two short chains a, b; the long chain c starts only when both have arrived
+            let la = rng.range(20, 40);
+            let lb = rng.range(20, 40);
+            let lc = rng.range(258, avail - la - lb);
+            for i in 0..la - 1 {
+                chain_cls.push(imp(rng, lit(i, true), lit(i + 1, true)));
+            }
+            for i in la..la + lb - 1 {
+                chain_cls.push(imp(rng, lit(i, true), lit(i + 1, true)));
+            }
+            let c0 = la + lb;
+            let mut j = vec![lit(la - 1, false), lit(la + lb - 1, false), lit(c0, true)];
+            rng.shuffle(&mut j);
+            chain_cls.push(j);
+            for i in c0..c0 + lc - 1 {
+                chain_cls.push(imp(rng, lit(i, true), lit(i + 1, true)));
+            }
+            main = (c0..c0 + lc).collect();
+            interesting.push(lit(0, true));
+            interesting.push(lit(la, true));
+            prelude.push(lit(0, true));
+            head = Some(lit(la, true));
+        }
+    }
+    let k = main.len();
+    interesting.push(lit(main[0], true));
+    interesting.push(lit(main[0], true));
+    interesting.push(lit(main[0], true));
+    interesting.push(lit(main[257], true));
+    interesting.push(lit(main[rng.range(256, k - 1)], false));
+    interesting.push(lit(main[rng.range(1, 40)], true));
+    // conflicts
+    let nconf = *rng.pick(&[0usize, 1, 1, 1, 1, 2, 2]);
+    for _ in 0..nconf {
+        let j = match rng.below(10) {
+            0..=3 => 0,
+            4..=6 => rng.range(0, 40),
+            _ => rng.range(0, k - 1),
+        };
+        if rng.chance(2, 3) && fresh < nv {
+            let y = fresh;
+            fresh += 1;
+            conf_cls.push(imp(rng, lit(main[j], true), lit(y, true)));
+            conf_cls.push(imp(rng, lit(main[j], true), lit(y, false)));
+        } else {
+            // a node far down the chain contradicts node j
+            let i = if j + 200 < k - 1 { rng.range(j + 200, k - 1) } else { k - 1 };
+            if i != j {
+                conf_cls.push(imp(rng, lit(main[j], true), lit(main[i], false)));
+            }
+        }
+        interesting.push(lit(main[j], true));
+        interesting.push(lit(main[j], true));
+    }
+    // skip edges and forward ternary implications (do not change any closure, change the watch order)
+    let mut extra: Vec<Vec<L>> = vec![];
+    for _ in 0..rng.range(0, 5) {
+        let i = rng.range(0, k - 12);
+        let d = rng.range(2, 10);
+        extra.push(imp(rng, lit(main[i], true), lit(main[i + d], true)));
+    }
+    for _ in 0..rng.range(0, 3) {
+        let i = rng.range(0, k - 30);
+        let mut c = vec![lit(main[i], false), lit(main[i + rng.range(1, 12)], true), lit(main[i + rng.range(13, 29)], true)];
+        rng.shuffle(&mut c);
+        extra.push(c);
+    }
+    if rng.chance(1, 10) {
+        // a unit clause far down the chain: SATSolver::new already propagates the tail
+        extra.push(vec![lit(main[rng.range(k - 60, k - 1)], true)]);
+    }
+    if rng.chance(1, 40) {
+        extra.push(vec![lit(main[0], true)]);
+    }
+    for c in extra {
+        let pos = rng.range(0, chain_cls.len());
+        chain_cls.insert(pos, c);
+    }
+    let mut cls: Vec<Vec<L>>;
+    match rng.below(6) {
+        0 | 1 => {
+            cls = chain_cls;
+            cls.extend(conf_cls);
+        }
+        2 | 3 => {
+            cls = chain_cls;
+            cls.extend(conf_cls);
+            rng.shuffle(&mut cls);
+        }
+        4 => {
+            cls = conf_cls;
+            cls.extend(chain_cls);
+        }
+        _ => {
+            cls = chain_cls;
+            cls.reverse();
+            cls.extend(conf_cls);
+        }
+    }
+    if rng.chance(1, 10) {
+        let c = rng.pick(&cls).clone();
+        let pos = rng.range(0, cls.len());
+        cls.insert(pos, c);
+    }
+    let head = head.unwrap_or(lit(main[0], true));
+    (cls, interesting, prelude, head)
+}
+
+/// short histories for the LARGE family: decide the head / a conflict node / a guard / a node beyond
+/// depth 256, after an UNSAT decide usually decide the negation (what the top-down compiler does),
+/// pops in between.  `budget` bounds the total number of literals assigned over the history (the
+/// full solver model pays per assigned literal).  The solver is used for case selection only.
+fn gen_history_large(rng: &mut Rng, raw: &[Vec<L>], interesting: &[L], prelude: &[L], head: L, maxlen: usize, budget: usize) -> Vec<Op> {
+    let nv = nvars_of(raw);
+    let mut ops = vec![];
+    let mut solver = match mk_solver(raw) {
+        Some(s) => s,
+        None => return vec![],
+    };
+    let mut depth = 0usize;
+    let mut spent = 0usize;
+    let mut last_unsat: Option<L> = None;
+    let mut pre: Vec<L> = if rng.chance(7, 10) { prelude.to_vec() } else { vec![] };
+    pre.reverse();
+    for step in 0..maxlen + pre.len() {
+        if spent > budget {
+            break;
+        }
+        let l = if let Some(l) = pre.pop() {
+            l
+        } else if let (Some(u), true) = (last_unsat, rng.chance(4, 5)) {
+            (u.0, !u.1)
+        } else if depth > 0 && rng.chance(1, 4) {
+            ops.push(Op::P);
+            if std::panic::catch_unwind(std::panic::AssertUnwindSafe(|| solver.pop())).is_err() {
+                return ops;
+            }
+            depth -= 1;
+            continue;
+        } else if (step == 0 || ops.len() == prelude.len()) && rng.chance(1, 2) {
+            head
+        } else if rng.chance(3, 5) {
+            let l = *rng.pick(interesting);
+            if rng.chance(1, 6) { (l.0, !l.1) } else { l }
+        } else {
+            (rng.below(nv as u64) as usize, rng.coin())
+        };
+        last_unsat = None;
+        ops.push(Op::D(l));
+        match std::panic::catch_unwind(std::panic::AssertUnwindSafe(|| solver.decide(to_lit(l)))) {
+            Err(_) => return ops,
+            Ok(DecisionResult::UNSAT) => last_unsat = Some(l),
+            Ok(_) => {
+                depth += 1;
+                spent += solver.difference_iter().count();
+            }
+        }
+    }
+    ops
+}
+
+fn gen_large(rng: &mut Rng, thorough: bool, full: bool) -> String {
+    let (raw, interesting, prelude, head) = gen_large_cnf(rng, thorough);
+    let ops = if full {
+        let n = rng.range(2, 6);
+        gen_history_large(rng, &raw, &interesting, &prelude, head, n, 450)
+    } else {
+        let n = rng.range(2, 14);
+        gen_history_large(rng, &raw, &interesting, &prelude, head, n, 100000)
+    };
+    let s = case_string(&raw, &ops);
+    if full { s } else { format!("u {s}") }
+}
+
 pub fn gen(rng: &mut Rng, idx: usize, n: usize, thorough: bool) -> String {
+    // LARGE family: 1 case in 32, from a forked generator (the small streams keep their sequence);
+    // 1 in 8 of them goes through the full solver model, the others through its unit-propagation layer
+    if idx % 32 == 31 {
+        let mut r2 = Rng::new(rng.0 ^ (idx as u64).wrapping_mul(0x2545F4914F6CDD1D));
+        return gen_large(&mut r2, thorough, (idx / 32) % 8 == 3);
+    }
     let frac = (idx * 100) / n.max(1);
     if thorough && frac < 35 {
         // exhaustive blocks: a tiny CNF (<= 3 variables, <= 3 clauses), every history of depth <= 3
@@ -441,8 +713,208 @@ fn check_state(
     }
 }
 
+// ---------------------------------------------------------------- oracle (scalable): unit-propagation closure
+/// clauses as sorted sets of literals + occurrence lists (index 2*var + polarity)
+struct Formula {
+    cls: Vec<Vec<L>>,
+    occ: Vec<Vec<usize>>,
+}
+fn lidx(l: L) -> usize {
+    2 * l.0 + l.1 as usize
+}
+impl Formula {
+    fn new(raw: &[Vec<L>], nv: usize) -> Formula {
+        let cls: Vec<Vec<L>> = raw
+            .iter()
+            .map(|c| {
+                let mut d = c.clone();
+                d.sort();
+                d.dedup();
+                d
+            })
+            .collect();
+        let mut occ = vec![vec![]; 2 * nv];
+        for (i, c) in cls.iter().enumerate() {
+            for l in c {
+                occ[lidx(*l)].push(i);
+            }
+        }
+        Formula { cls, occ }
+    }
+}
+/// Naive reference propagator: assign `units`, then repeat "a clause without a true literal whose
+/// literals are all false but one gets that one assigned" until nothing changes.  false = some
+/// clause has all its literals false (conflict).  Without a conflict the result is the unique
+/// unit-propagation closure (least fix-point), whatever order the clauses are visited in.
+fn up_close(f: &Formula, m: &mut Vec<Option<bool>>, units: &[L]) -> bool {
+    let mut q: Vec<L> = vec![];
+    for &u in units {
+        match m[u.0] {
+            Some(b) => {
+                if b != u.1 {
+                    return false;
+                }
+            }
+            None => {
+                m[u.0] = Some(u.1);
+                q.push(u);
+            }
+        }
+    }
+    let mut i = 0;
+    while i < q.len() {
+        let l = q[i];
+        i += 1;
+        for &ci in &f.occ[lidx((l.0, !l.1))] {
+            let c = &f.cls[ci];
+            if c.iter().any(|x| m[x.0] == Some(x.1)) {
+                continue;
+            }
+            let un: Vec<L> = c.iter().filter(|x| m[x.0].is_none()).cloned().collect();
+            match un.len() {
+                0 => return false,
+                1 => {
+                    m[un[0].0] = Some(un[0].1);
+                    q.push(un[0]);
+                }
+                _ => {}
+            }
+        }
+    }
+    true
+}
+/// closure of the empty assignment: empty clause -> conflict, unit clauses are the seeds
+fn up_initial(f: &Formula, nv: usize) -> Option<Vec<Option<bool>>> {
+    if f.cls.iter().any(|c| c.is_empty()) {
+        return None;
+    }
+    let units: Vec<L> = f.cls.iter().filter(|c| c.len() == 1).map(|c| c[0]).collect();
+    let mut m = vec![None; nv];
+    if up_close(f, &mut m, &units) {
+        Some(m)
+    } else {
+        None
+    }
+}
+/// DPLL over the closure (counter-model search, only run when solver and closure differ):
+/// Ok(Some(a)) total model extending m, Ok(None) none exists, Err(()) node budget exhausted
+fn find_model(f: &Formula, m: Vec<Option<bool>>, budget: &mut usize) -> Result<Option<Vec<bool>>, ()> {
+    if *budget == 0 {
+        return Err(());
+    }
+    *budget -= 1;
+    match m.iter().position(|x| x.is_none()) {
+        None => {
+            let a: Vec<bool> = m.iter().map(|x| x.unwrap()).collect();
+            if f.cls.iter().all(|c| c.iter().any(|l| a[l.0] == l.1)) {
+                Ok(Some(a))
+            } else {
+                Ok(None)
+            }
+        }
+        Some(v) => {
+            for b in [false, true] {
+                let mut m2 = m.clone();
+                if up_close(f, &mut m2, &[(v, b)]) {
+                    if let Some(a) = find_model(f, m2, budget)? {
+                        return Ok(Some(a));
+                    }
+                }
+            }
+            Ok(None)
+        }
+    }
+}
+/// a total model of the CNF extending `base` (a conflict-free closure) and the literals `extra`
+fn search(f: &Formula, base: &[Option<bool>], extra: &[L]) -> Result<Option<Vec<bool>>, ()> {
+    let mut m = base.to_vec();
+    if !up_close(f, &mut m, extra) {
+        return Ok(None);
+    }
+    let mut budget = 20000usize;
+    find_model(f, m, &mut budget)
+}
+fn show_model(a: &[bool]) -> String {
+    let t: Vec<String> = a.iter().enumerate().filter(|(_, b)| **b).map(|(v, _)| (v + 1).to_string()).collect();
+    format!("true variables (1-based) {{{}}}, all others false", t.join(","))
+}
+
+/// decisions reflected, fix-point, satisfied flag: no enumeration needed
+fn check_common(what: &str, raw: &[Vec<L>], decisions: &[L], o: &Obs, fails: &mut Vec<String>) {
+    for d in decisions {
+        if o.model[d.0] != Some(d.1) {
+            fails.push(format!("{what}: decision {} not reflected in the model", lit_tok(*d)));
+        }
+    }
+    let mut shown = 0;
+    for (i, c) in raw.iter().enumerate() {
+        if c.iter().any(|l| o.model[l.0] == Some(l.1)) {
+            continue;
+        }
+        let mut un: Vec<L> = c.iter().filter(|l| o.model[l.0].is_none()).cloned().collect();
+        un.sort();
+        un.dedup();
+        if un.len() <= 1 {
+            shown += 1;
+            if shown > 4 {
+                continue;
+            }
+        }
+        if un.is_empty() {
+            fails.push(format!("{what}: clause {i} is falsified but UNSAT was not reported"));
+        } else if un.len() == 1 {
+            fails.push(format!("{what}: clause {i} is unit on {} but it was not propagated", lit_tok(un[0])));
+        }
+    }
+    let all_true = raw.iter().filter(|c| !is_taut(c)).all(|c| c.iter().any(|l| o.model[l.0] == Some(l.1)));
+    if all_true != o.is_sat {
+        fails.push(format!("{what}: is_sat()={} but 'every non-tautological clause has a true literal'={}", o.is_sat, all_true));
+    }
+}
+
+/// the solver's partial model against the closure `exp` of CNF + decisions: a closure literal that
+/// is unassigned is a missed implication; an assigned literal outside the closure is reported as
+/// not entailed when the search finds a model of CNF + decisions with the opposite value
+fn check_closure(what: &str, f: &Formula, exp: &[Option<bool>], o: &Obs, st: &mut Stats, fails: &mut Vec<String>) {
+    let nv = exp.len();
+    let extra: Vec<usize> = (0..nv).filter(|v| o.model[*v].is_some() && o.model[*v] != exp[*v]).collect();
+    let missing: Vec<usize> = (0..nv).filter(|v| o.model[*v].is_none() && exp[*v].is_some()).collect();
+    if !missing.is_empty() {
+        let v = missing[0];
+        fails.push(format!(
+            "{what}: {} literal(s) of the unit-propagation closure of CNF + decisions are unassigned, first {}",
+            missing.len(),
+            lit_tok((v, exp[v].unwrap()))
+        ));
+    }
+    for (k, v) in extra.iter().enumerate() {
+        if k >= 2 {
+            break;
+        }
+        let b = o.model[*v].unwrap();
+        match search(f, exp, &[(*v, !b)]) {
+            Ok(Some(a)) => fails.push(format!(
+                "{what}: {} assigned but not entailed by CNF + decisions ({} assigned literal(s) are outside the unit-propagation closure; countermodel: {})",
+                lit_tok((*v, b)),
+                extra.len(),
+                show_model(&a)
+            )),
+            Ok(None) => st.bump("assigned_literal_entailed_but_not_by_unit_propagation"),
+            Err(()) => fails.push(format!(
+                "{what}: {} assigned but outside the unit-propagation closure of CNF + decisions (countermodel search gave up)",
+                lit_tok((*v, b))
+            )),
+        }
+    }
+}
+
+const BRUTE_MAX: usize = 16;
+
 pub fn run(case: &str, st: &mut Stats) -> Outcome {
-    let t = toks(case);
+    let t0 = toks(case);
+    // `u`: LARGE-family case compared with the unit-propagation layer of the model only
+    let light = t0.first() == Some(&"u");
+    let t = if light { &t0[1..] } else { &t0[..] };
     let mut raw: Vec<Vec<L>> = vec![];
     let mut i = 0;
     while i < t.len() && t[i] == "c" {
@@ -465,8 +937,14 @@ pub fn run(case: &str, st: &mut Stats) -> Outcome {
         }
     }
     let nv = nvars_of(&raw);
+    let small = nv <= BRUTE_MAX;
     let mut fails: Vec<String> = vec![];
-    st.bump(&format!("nvars={nv}"));
+    if small {
+        st.bump(&format!("nvars={nv}"));
+    } else {
+        st.bump(&format!("nvars={}..{} (LARGE family)", nv / 50 * 50, nv / 50 * 50 + 49));
+        st.bump(if light { "large:model=unit-propagation layer only" } else { "large:model=full solver" });
+    }
     st.bump(&format!("nclauses={}", raw.len().min(9)));
     if raw.iter().any(|c| is_taut(c)) {
         st.bump("has_tautology");
@@ -506,26 +984,68 @@ pub fn run(case: &str, st: &mut Stats) -> Outcome {
     if !fit {
         st.bump("hash_wraps_possible(product>=2^128)");
     }
+    let f = Formula::new(&raw, nv);
+    let exp0 = up_initial(&f, nv);
+    let pre = if light { "U " } else { "" };
+    let show = |o: &Obs| -> String {
+        if light {
+            let s = obs_string(o);
+            // [model;diff;is_sat;hash] -> [model;diff]
+            let cut = s.rfind(';').unwrap();
+            let cut = s[..cut].rfind(';').unwrap();
+            format!("{}]", &s[..cut])
+        } else {
+            obs_string(o)
+        }
+    };
 
     let mut solver = match mk_solver(&raw) {
         None => {
             st.bump("new=None");
             // UNSAT from new only if the CNF has no model at all
-            if let Some(a) = models(&raw, nv, &[]).first() {
-                fails.push(format!("SATSolver::new returned None but the CNF has the model {a:b}"));
+            if small {
+                if let Some(a) = models(&raw, nv, &[]).first() {
+                    fails.push(format!("SATSolver::new returned None but the CNF has the model {a:b}"));
+                }
             }
-            return Outcome { result: "NONE".to_string(), fails, nontrivial: !raw.iter().any(|c| c.is_empty()) };
+            if let Some(e) = &exp0 {
+                match search(&f, e, &[]) {
+                    Ok(Some(a)) => fails.push(format!(
+                        "SATSolver::new returned None but unit propagation meets no conflict and the CNF has a model: {}",
+                        show_model(&a)
+                    )),
+                    Ok(None) => st.bump("new=None_without_unit_conflict_but_unsatisfiable"),
+                    Err(()) => fails.push("SATSolver::new returned None but unit propagation of the unit clauses meets no conflict".to_string()),
+                }
+            }
+            return Outcome { result: format!("{pre}NONE"), fails, nontrivial: !raw.iter().any(|c| c.is_empty()) };
         }
         Some(s) => s,
     };
-    let mut out = String::new();
+    let mut out = String::from(pre);
     let mut decisions: Vec<L> = vec![];
     let mut saved: Vec<Obs> = vec![]; // observables before each successful decide
     let mut seen: HashMap<u128, Vec<Option<Vec<L>>>> = HashMap::new();
     let mut seen_res: HashMap<Vec<Option<Vec<L>>>, u128> = HashMap::new();
     let mut cur = observe(&solver, nv, &mut fails);
-    out.push_str(&obs_string(&cur));
-    check_state("after new", &raw, nv, &decisions, &cur, &mut fails);
+    out.push_str(&show(&cur));
+    if small {
+        check_state("after new", &raw, nv, &decisions, &cur, &mut fails);
+    } else {
+        check_common("after new", &raw, &decisions, &cur, &mut fails);
+    }
+    // expected partial models (closure of CNF + decisions), one per stack level
+    let mut exp_cur: Vec<Option<bool>> = match exp0 {
+        Some(e) => {
+            check_closure("after new", &f, &e, &cur, st, &mut fails);
+            e
+        }
+        None => {
+            fails.push("SATSolver::new returned a solver although unit propagation of the unit clauses ends in a conflict".to_string());
+            cur.model.clone()
+        }
+    };
+    let mut exp_saved: Vec<Vec<Option<bool>>> = vec![];
     let mut nontrivial = false;
     let mut note_hash = |o: &Obs, fails: &mut Vec<String>| {
         let r = residual(&raw, &o.model);
@@ -546,20 +1066,40 @@ pub fn run(case: &str, st: &mut Stats) -> Outcome {
         seen_res.insert(r, o.hash);
     };
     note_hash(&cur, &mut fails);
+    let mut prev_unsat: Option<L> = None;
     for (k, o) in ops.iter().enumerate() {
+        let was_unsat = prev_unsat.take();
         match o {
             Op::P => {
+                if saved.is_empty() {
+                    // only reachable when an earlier decide of a valid history reported UNSAT wrongly
+                    // (already recorded above): popping now would unwrap an empty stack in the solver
+                    fails.push(format!("step {k}: the history pops here but no successful decide is outstanding (an earlier decide reported UNSAT unexpectedly)"));
+                    break;
+                }
                 st.bump("op_pop");
                 solver.pop();
                 decisions.pop();
                 let now = observe(&solver, nv, &mut fails);
                 let want = saved.pop().expect("generator only pops after a successful decide");
                 if now != want {
-                    fails.push(format!("step {k}: pop did not restore the observable state: {} vs {}", obs_string(&now), obs_string(&want)));
+                    let (a, b) = (obs_string(&now), obs_string(&want));
+                    fails.push(format!(
+                        "step {k}: pop did not restore the observable state: {} vs {}",
+                        if small { a } else { format!("{} assigned", now.model.iter().filter(|x| x.is_some()).count()) },
+                        if small { b } else { format!("{} assigned", want.model.iter().filter(|x| x.is_some()).count()) }
+                    ));
                 }
                 out.push_str(" POP ");
-                out.push_str(&obs_string(&now));
-                check_state(&format!("step {k} (pop)"), &raw, nv, &decisions, &now, &mut fails);
+                out.push_str(&show(&now));
+                let what = format!("step {k} (pop)");
+                if small {
+                    check_state(&what, &raw, nv, &decisions, &now, &mut fails);
+                } else {
+                    check_common(&what, &raw, &decisions, &now, &mut fails);
+                }
+                exp_cur = exp_saved.pop().unwrap();
+                check_closure(&what, &f, &exp_cur, &now, st, &mut fails);
                 cur = now;
             }
             Op::D(l) => {
@@ -574,7 +1114,7 @@ pub fn run(case: &str, st: &mut Stats) -> Outcome {
                         fails.push(format!("step {k}: panicking decide changed the observable state"));
                     }
                     out.push_str(" PANIC ");
-                    out.push_str(&obs_string(&now));
+                    out.push_str(&show(&now));
                     continue;
                 }
                 if cur.model[l.0].is_some() {
@@ -584,14 +1124,31 @@ pub fn run(case: &str, st: &mut Stats) -> Outcome {
                 }
                 let res = solver.decide(to_lit(*l));
                 let now = observe(&solver, nv, &mut fails);
+                // the closure of CNF + decisions + l, computed without the solver
+                let mut exp_try = exp_cur.clone();
+                let exp_ok = up_close(&f, &mut exp_try, &[*l]);
                 match res {
                     DecisionResult::UNSAT => {
                         st.bump("res_UNSAT");
                         out.push_str(" UNSAT ");
-                        let mut d2 = decisions.clone();
-                        d2.push(*l);
-                        if let Some(a) = models(&raw, nv, &d2).first() {
-                            fails.push(format!("step {k}: UNSAT reported but {a:b} is a model of CNF + decisions"));
+                        prev_unsat = Some(*l);
+                        if small {
+                            let mut d2 = decisions.clone();
+                            d2.push(*l);
+                            if let Some(a) = models(&raw, nv, &d2).first() {
+                                fails.push(format!("step {k}: UNSAT reported but {a:b} is a model of CNF + decisions"));
+                            }
+                        }
+                        if exp_ok {
+                            match find_model(&f, exp_try, &mut 20000) {
+                                Ok(Some(a)) => fails.push(format!(
+                                    "step {k}: decide {} reported UNSAT but unit propagation meets no conflict and CNF + decisions have a model: {}",
+                                    lit_tok(*l),
+                                    show_model(&a)
+                                )),
+                                Ok(None) => st.bump("UNSAT_without_unit_conflict_but_unsatisfiable"),
+                                Err(()) => fails.push(format!("step {k}: decide {} reported UNSAT but unit propagation of CNF + decisions meets no conflict", lit_tok(*l))),
+                            }
                         }
                         if now != cur {
                             fails.push(format!("step {k}: UNSAT decide changed the observable state"));
@@ -603,7 +1160,7 @@ pub fn run(case: &str, st: &mut Stats) -> Outcome {
                     r => {
                         let sat = matches!(r, DecisionResult::SAT);
                         st.bump(if sat { "res_SAT" } else { "res_Unknown" });
-                        out.push_str(if sat { " SAT " } else { " UNK " });
+                        out.push_str(if light { " OK " } else if sat { " SAT " } else { " UNK " });
                         if sat != now.is_sat {
                             fails.push(format!("step {k}: DecisionResult::SAT={sat} but is_sat()={}", now.is_sat));
                         }
@@ -613,6 +1170,12 @@ pub fn run(case: &str, st: &mut Stats) -> Outcome {
                             nontrivial = true;
                             st.bump("decide_with_implied_literals");
                         }
+                        if now.diff.len() > 257 {
+                            st.bump("large:decide_with_more_than_256_implied_literals");
+                        }
+                        if was_unsat == Some((l.0, !l.1)) {
+                            st.bump("decide_UNSAT_then_decide_the_negation");
+                        }
                         // difference_iter = newly assigned literals
                         let mut want: Vec<i64> = (0..nv)
                             .filter(|v| now.model[*v].is_some() && cur.model[*v].is_none())
@@ -620,17 +1183,37 @@ pub fn run(case: &str, st: &mut Stats) -> Outcome {
                             .collect();
                         want.sort_by_key(|a| (a.abs(), *a));
                         if want != now.diff {
-                            fails.push(format!("step {k}: difference_iter {:?} is not the set of newly assigned literals {:?}", now.diff, want));
+                            fails.push(format!(
+                                "step {k}: difference_iter ({} literals) is not the set of newly assigned literals ({} literals)",
+                                now.diff.len(),
+                                want.len()
+                            ));
                         }
                         for v in 0..nv {
                             if cur.model[v].is_some() && cur.model[v] != now.model[v] {
                                 fails.push(format!("step {k}: decide changed the value of x{v}"));
                             }
                         }
-                        check_state(&format!("step {k} (decide {})", lit_tok(*l)), &raw, nv, &decisions, &now, &mut fails);
+                        let what = format!("step {k} (decide {})", lit_tok(*l));
+                        if small {
+                            check_state(&what, &raw, nv, &decisions, &now, &mut fails);
+                        } else {
+                            check_common(&what, &raw, &decisions, &now, &mut fails);
+                        }
+                        exp_saved.push(exp_cur.clone());
+                        if exp_ok {
+                            check_closure(&what, &f, &exp_try, &now, st, &mut fails);
+                            exp_cur = exp_try;
+                        } else {
+                            fails.push(format!(
+                                "step {k}: decide {} succeeded although unit propagation of CNF + decisions ends in a conflict (no model extends the decisions)",
+                                lit_tok(*l)
+                            ));
+                            exp_cur = now.model.clone();
+                        }
                     }
                 }
-                out.push_str(&obs_string(&now));
+                out.push_str(&show(&now));
                 cur = now;
             }
         }
